@@ -263,6 +263,24 @@ func socksUDPHeader(ip net.IP, port int) []byte {
 	return append(h, byte(port>>8), byte(port))
 }
 
+// stubResolver maps the test domain to loopback.
+type stubResolver struct{}
+
+func (stubResolver) LookupIP(ctx context.Context, network, host string) ([]net.IP, error) {
+	if host == c18Domain {
+		return []net.IP{net.IPv4(127, 0, 0, 1)}, nil
+	}
+	return nil, fmt.Errorf("no such host %q", host)
+}
+
+const c18Domain = "relay-target.test"
+
+func socksUDPHeaderDomain(name string, port int) []byte {
+	h := []byte{0, 0, 0, 3, byte(len(name))}
+	h = append(h, name...)
+	return append(h, byte(port>>8), byte(port))
+}
+
 func c18RelayCase(c *Ctx) *Result {
 	r := rngFor(c.Seed, "C18r", c.Idx)
 	params := map[string]interface{}{}
@@ -279,7 +297,16 @@ func c18RelayCase(c *Ctx) *Result {
 	defer ea.conn.Close()
 	defer eb.conn.Close()
 	defer ec.conn.Close()
-	dests := []*udpEcho{ea, eb, ec}
+	// D: a second service of the host behind the test domain (same name as A when A is addressed by name, other port)
+	ed, err4 := newUDPEcho("127.0.0.1", 'D', time.Duration(pick(r, 0, 10))*time.Millisecond)
+	if err4 != nil {
+		res.Verdict, res.Detail = Inconclusive, err4.Error()
+		return res
+	}
+	defer ed.conn.Close()
+	dests := []*udpEcho{ea, eb, ec, ed}
+	byName := map[int]bool{0: r.Intn(2) == 0, 3: true} // destinations addressed by domain name
+	params["a_by_name"] = byName[0]
 	relay, err := net.ListenUDP("udp", &net.UDPAddr{IP: net.IPv6unspecified})
 	if err != nil {
 		relay, err = net.ListenUDP("udp", &net.UDPAddr{IP: net.IPv4zero})
@@ -292,7 +319,7 @@ func c18RelayCase(c *Ctx) *Result {
 	done := make(chan struct{})
 	go func() {
 		defer close(done)
-		socks5.RunUDPAssociateLoop(relay, apicommon.NewPacketOverStreamTunnel(b), &net.Resolver{})
+		socks5.RunUDPAssociateLoop(relay, apicommon.NewPacketOverStreamTunnel(b), stubResolver{})
 	}()
 	tun := apicommon.NewPacketOverStreamTunnel(a)
 	// upload: interleaved datagrams to the three destinations
@@ -303,9 +330,12 @@ func c18RelayCase(c *Ctx) *Result {
 	var sent []sentT
 	cnt := 10 + r.Intn(12)
 	for i := 0; i < cnt; i++ {
-		d := r.Intn(3)
+		d := r.Intn(4)
 		if i == 0 {
 			d = 0
+		}
+		if i == 2 {
+			d = 3 // the other port of the named host early on
 		}
 		if i == 1 {
 			d = 1 // A first, then B right away: A's reply arrives after B's header was read
@@ -313,6 +343,9 @@ func c18RelayCase(c *Ctx) *Result {
 		body := dgramBody(d, i, pick(r, 12, 13, 100, 1000, 1400), byte(i))
 		ua := dests[d].conn.LocalAddr().(*net.UDPAddr)
 		pkt := append(socksUDPHeader(ua.IP, ua.Port), body...)
+		if byName[d] {
+			pkt = append(socksUDPHeaderDomain(c18Domain, ua.Port), body...)
+		}
 		a.SetWriteDeadline(time.Now().Add(3 * time.Second))
 		if _, err := tun.Write(pkt); err != nil {
 			res.Verdict, res.Detail = Inconclusive, "tunnel write: "+err.Error()
@@ -342,7 +375,15 @@ func c18RelayCase(c *Ctx) *Result {
 		var ip net.IP
 		var port int
 		var body []byte
+		var name string
 		switch p[3] {
+		case 3:
+			nl := int(p[4])
+			if len(p) < 7+nl {
+				sig, detail = "reply-header-malformed", "short domain header"
+				break
+			}
+			name, port, body = string(p[5:5+nl]), int(p[5+nl])<<8|int(p[6+nl]), p[7+nl:]
 		case 1:
 			ip, port, body = net.IP(p[4:8]), int(p[8])<<8|int(p[9]), p[10:]
 		case 4:
@@ -373,7 +414,12 @@ func c18RelayCase(c *Ctx) *Result {
 			break
 		}
 		fa := from.conn.LocalAddr().(*net.UDPAddr)
-		if !ip.Equal(fa.IP) || port != fa.Port {
+		if name != "" {
+			if name != c18Domain || port != fa.Port {
+				sig, detail = "reply-carries-wrong-address", fmt.Sprintf("a reply sent by %v (%c) arrived with %s:%d in its SOCKS5 header", fa, tag, name, port)
+				break
+			}
+		} else if !ip.Equal(fa.IP) || port != fa.Port {
 			sig, detail = "reply-carries-wrong-address", fmt.Sprintf("a reply sent by %v (%c) arrived with %v:%d in its SOCKS5 header", fa, tag, ip, port)
 			break
 		}
